@@ -2,6 +2,6 @@
 # run the quick (or $1) tier of every claimed check sequentially; summary lines only
 tier=${1:-quick}
 cd "$(dirname "$0")/.."
-for p in $(python3 -c "import json;print(' '.join(c['property_id'] for c in json.load(open('MANIFEST.json'))['checks']))"); do
+for p in ${PROPS:-$(python3 -c "import json;print(' '.join(c['property_id'] for c in json.load(open('MANIFEST.json'))['checks']))")}; do
   ./check $p --tier $tier 2>&1 | grep -E "VIOLATION|KNOWN-FINDING|INCONCLUSIVE|BUILD FAILED|^\[$p (quick|thorough)|Traceback" | cut -c1-220
 done
